@@ -764,14 +764,14 @@ package store
 //@   assert @f.Finalizer: [fingerprint-only-after-install] innerOK && installed
 //@   ghost update after @f.Finalizer: finalized = true
 //@   ghost update after @f.Finalizer: finalErr = result
-//@   ensures [nil-means-written] retError == nil ==> innerOK
-//@   ensures [finalizer-error-returned] (finalized && finalErr != nil) ==> retError != nil
+//@   ensures [nil-means-written] result == nil ==> innerOK
+//@   ensures [finalizer-error-returned] (finalized && finalErr != nil) ==> result != nil
 //@   ghost var invokedSet bool = false
 //@   ghost var succSet bool = false
 //@   ghost update @set:f.persistInvoked: invokedSet = true
 //@   ghost update @set:f.persistSucceeded: succSet = true
 //@   ensures [invoked-recorded] invokedSet
-//@   ensures [outcome-recorded] (retError == nil) == succSet
+//@   ensures [outcome-recorded] (result == nil) == succSet
 //
 // createSnapshotFingerprint: the marker is written to a temporary name and renamed into place, so
 // a crash leaves no marker, the old one or the complete new one; it describes the database file.
